@@ -12,6 +12,7 @@ validate: spec/Trace_Relations.tla: RelabelInvariant, PDSymmetric, VInIn01, VIZe
 """
 import random
 import re
+import time
 
 import numpy as np
 
@@ -550,21 +551,24 @@ def scale_jobs(ctx):
                                (rng.choice(SCALE_STYLES), rng.choice(SCALE_STYLES))])
         for fn in fns:
             if ctx.quick:
-                # per routine and n: the order-reversing renaming of a partition from the top regime,
-                # an order-changing renaming of a partition with many communities of several nodes,
-                # and a drawn renaming of a drawn partition
+                # per routine and n: the order-reversing renaming and a random-order renaming of a
+                # partition from the top regime, an order-changing renaming of a partition with many
+                # communities of several nodes, and a drawn renaming of a drawn partition
                 one(fn, rng.choice(top_parts), "natural", "reversed")
                 if n > 200 and fn.startswith("gateway_coef_sign"):      # seconds per call at this size
                     continue
+                # (reversal keeps every difference of two ranks up to sign, hence is blind to ranks
+                # aliasing modulo 2^8 / 2^16: also a renaming in random order)
+                one(fn, rng.choice(top_parts), "natural", rng.choice(["zero-based", "negative", "gapped", "large"]))
                 one(fn, rng.choice(chunky_parts), *rng.choice([("natural", "reversed"), ("reversed", "gapped"),
                                                              ("zero-based", "negative")]))
                 one(fn, rng.choice(parts), *drawn_pair())
                 continue
             heavy = fn.startswith("gateway_coef_sign")          # O(k n^2) python loop per call
-            for part in parts:
+            for part in (rng.sample(parts, 3) if heavy and n > 256 else parts):
                 todo = [("natural", "reversed"), ("natural", rng.choice(["affine+", "affine-"]))] + \
                        [drawn_pair() for _ in range(3)]
-                for s1, s2 in (rng.sample(todo, 2) if heavy else todo):
+                for s1, s2 in (rng.sample(todo, 1 if n > 256 else 2) if heavy else todo):
                     one(fn, part, s1, s2)
         for part in parts:
             # partition_distance: a partition against its renaming, against a one-node move of
@@ -614,8 +618,10 @@ def run(ctx):
     verdicts = ctx.validate(*rc.TRACE, recs, tag="c14", chunk=6000)
     # scale regime: few, large records; judged by the same clauses (they only relate the two
     # outcomes and re-check that the labellings are renamings of each other)
+    t0 = time.time()
     sjobs = scale_jobs(ctx)
     srecs = pool.run_jobs(__name__, sjobs, limit=SCALE_LIMIT)
+    core.log("  scale regime: %d jobs built and run in %.1fs" % (len(sjobs), time.time() - t0))
     sverdicts = ctx.validate(*rc.TRACE, srecs, tag="c14scale", chunk=800)
     ctx.extra["scale_regime"] = dict(
         jobs=len(sjobs), timeouts=sum(1 for r in srecs if r.get("timeout")),
